@@ -173,9 +173,12 @@ def multiLine (cfg : Config) (m : MatcherI) (σ : Script) (slice_ : Bytes) : Run
                 match s.lastMatch with
                 | none => (s.core, .ok true)
                 | some lastMatch =>
-                  match mlSinkContext cfg σ slice_ s.core lastMatch with
-                  | (st, .ok true) => mlSinkMatched cfg σ slice_ st lastMatch
-                  | (st, r) => (st, r)
+                  -- `Some(last_match) if last_match.is_empty() => true` (563f90b, finding F20/F27)
+                  if lastMatch.e - lastMatch.s == 0 then (s.core, .ok true)
+                  else
+                    match mlSinkContext cfg σ slice_ s.core lastMatch with
+                    | (st, .ok true) => mlSinkMatched cfg σ slice_ st lastMatch
+                    | (st, r) => (st, r)
               else (s.core, .ok false)
             match flush with
             | (st, .err) => (st, .err)
